@@ -348,7 +348,9 @@ func c03Exec(c *core.Ctx, spec *refcodec.Spec, m *bind.Msg, entry string, data [
 	}
 	c.Inc("accepted")
 	ent := famEntry(m, entry)
+	encBefore := mapOrderReached()
 	e1, err, pi := implEncode(m, entry, r, nil)
+	orders := mapOrdersAfter(encBefore) // the second encoding runs under every other map iteration order if the first ranged over a map
 	if pi != nil {
 		c.FailCase("reencode|"+r.name+"|"+pi.Key(), fmt.Sprintf("%s via %s: re-encoding the decoded message panics: %s", r.name, ent, pi.Msg), "bytes", describeCase(m, entry, data))
 		return
@@ -376,10 +378,20 @@ func c03Exec(c *core.Ctx, spec *refcodec.Spec, m *bind.Msg, entry string, data [
 		c.FailCase("reencode|"+r.name+"|message-differs", fmt.Sprintf("%s via %s: decode(encode(decode(x))) differs from decode(x); x=%x, re-encoding=%x", r.name, ent, clip(data), clip(e1)), "bytes", describeCase(m, entry, data))
 		return
 	}
-	e2, err2, pi2 := implEncode(mm, entry, r2, nil)
-	if pi2 != nil || err2 != nil || !bytes.Equal(e1, e2) {
-		c.FailCase("reencode|"+r.name+"|not-a-fixed-point", fmt.Sprintf("%s via %s: second re-encoding differs: %x vs %x (%v)", r.name, ent, clip(e1), clip(e2), err2), "bytes", describeCase(m, entry, data))
-		return
+	for _, ord := range orders {
+		var e2 []byte
+		var err2 error
+		var pi2 *core.PanicInfo
+		note := ""
+		if ord != mapOrderCurrent() {
+			note = fmt.Sprintf("; map iteration order #%d instead of #%d", ord, mapOrderCurrent())
+			c.Inc("encodes_repeated_under_another_map_order")
+		}
+		withMapOrder(ord, func() { e2, err2, pi2 = implEncode(mm, entry, r2, nil) })
+		if pi2 != nil || err2 != nil || !bytes.Equal(e1, e2) {
+			c.FailCase("reencode|"+r.name+"|not-a-fixed-point", fmt.Sprintf("%s via %s: second re-encoding differs: %x vs %x (%v%s)", r.name, ent, clip(e1), clip(e2), err2, note), "bytes", describeCase(m, entry, data))
+			return
+		}
 	}
 	ref, _ := refForEntry(spec, m, entry, data)
 	if ref.Canonical() {
@@ -403,11 +415,14 @@ func c10Exec(c *core.Ctx, m *bind.Msg, entry string, data []byte, n int64) {
 		buf[i] = 0xC3
 	}
 	in := buf[:len(data)]
+	orderBefore := mapOrderReached()
 	r := implDecode(m, entry, in)
 	if r.pi != nil {
 		c.Inc("decode_panics_left_to_C01")
 		return
 	}
+	// the repeated executions below run under every other map iteration order if the first one ranged over a map
+	orders := mapOrdersAfter(orderBefore)
 	if lastInputSliceChanged != "" {
 		c.FailCase("decode|"+ent+"|changes-callers-slice", fmt.Sprintf("%s via %s on %x: %s", m.Name, ent, clip(data), lastInputSliceChanged), "bytes", describeCase(m, entry, data))
 		return
@@ -429,20 +444,28 @@ func c10Exec(c *core.Ctx, m *bind.Msg, entry string, data []byte, n int64) {
 		}
 	}
 	// determinism
-	r2 := implDecode(m, entry, append([]byte{}, data...))
-	if (r.err == nil) != (r2.err == nil) || (r.err != nil && r.err.Error() != r2.err.Error()) {
-		c.FailCase("decode|"+ent+"|nondeterministic-verdict", fmt.Sprintf("%s via %s: two decodes of the same bytes: %v / %v", m.Name, ent, r.err, r2.err), "bytes", describeCase(m, entry, data))
-		return
-	}
 	eq := func(a, b *implResult) bool {
 		if entry == "direct" {
 			return reflect.DeepEqual(a.body.Interface(), b.body.Interface())
 		}
 		return reflect.DeepEqual(a.msg, b.msg)
 	}
-	if !eq(r, r2) {
-		c.FailCase("decode|"+ent+"|nondeterministic-value", fmt.Sprintf("%s via %s: two decodes of the same bytes give different messages", m.Name, ent), "bytes", describeCase(m, entry, data))
-		return
+	var r2 *implResult
+	for _, ord := range orders {
+		note := ""
+		if ord != mapOrderCurrent() {
+			note = fmt.Sprintf(" (second decode with map iteration order #%d instead of #%d)", ord, mapOrderCurrent())
+			c.Inc("decodes_repeated_under_another_map_order")
+		}
+		withMapOrder(ord, func() { r2 = implDecode(m, entry, append([]byte{}, data...)) })
+		if (r.err == nil) != (r2.err == nil) || (r.err != nil && r.err.Error() != r2.err.Error()) {
+			c.FailCase("decode|"+ent+"|nondeterministic-verdict", fmt.Sprintf("%s via %s: two decodes of the same bytes: %v / %v%s", m.Name, ent, r.err, r2.err, note), "bytes", describeCase(m, entry, data))
+			return
+		}
+		if !eq(r, r2) {
+			c.FailCase("decode|"+ent+"|nondeterministic-value", fmt.Sprintf("%s via %s: two decodes of the same bytes give different messages%s", m.Name, ent, note), "bytes", describeCase(m, entry, data))
+			return
+		}
 	}
 	c.Seen("outcome", errClass(r.err))
 	if n%16 == 0 {
@@ -479,7 +502,20 @@ func c10Exec(c *core.Ctx, m *bind.Msg, entry string, data []byte, n int64) {
 			c.FailCase("encode|"+ent+"|overwrites-buffer", fmt.Sprintf("%s via %s: encoding into a buffer holding %d octets does not preserve them", r.name, ent, len(pre)), "bytes", describeCase(m, entry, data))
 			return
 		}
+		encBefore := mapOrderReached()
 		out0, _, _ := implEncode(m, entry, r2, nil)
+		for _, ord := range mapOrdersAfter(encBefore) {
+			if ord == mapOrderCurrent() {
+				continue
+			}
+			var outK []byte
+			withMapOrder(ord, func() { outK, _, _ = implEncode(m, entry, r2, nil) })
+			c.Inc("encodes_repeated_under_another_map_order")
+			if !bytes.Equal(outK, out0) {
+				c.FailCase("encode|"+ent+"|nondeterministic", fmt.Sprintf("%s via %s: two encodings of the same message differ: %x / %x (map iteration order #%d instead of #%d)", r.name, ent, clip(out0), clip(outK), ord, mapOrderCurrent()), "bytes", describeCase(m, entry, data))
+				return
+			}
+		}
 		if !bytes.Equal(out[len(pre):], out0) {
 			c.FailCase("encode|"+ent+"|not-append-or-nondeterministic", fmt.Sprintf("%s via %s: output after %d pre-existing octets %x differs from output into an empty buffer %x", r.name, ent, len(pre), clip(out[len(pre):]), clip(out0)), "bytes", describeCase(m, entry, data))
 			return
